@@ -216,7 +216,7 @@ def v_oracle(case):
                 d = declared_content_length(headers)
                 if d == "conflicting":
                     return ("validate_%s accepts conflicting content-length declarations (op %d): %r" % (KINDS[kind], i, headers),
-                            {"site": "validate_headers", "kind": KINDS[kind], "rule": "content-length-conflicting"})
+                            {"site": "validate_headers", "rule": "content-length-conflicting"})
                 if kind in (0, 1) and ecl != d:
                     return ("validate_%s stored expected_content_length=%r for declared %r (op %d)" % (KINDS[kind], ecl, d, i),
                             {"site": "validate_headers", "kind": KINDS[kind], "rule": "expected-content-length"})
@@ -356,7 +356,7 @@ def long_spellings():
 
 def v_content_length(thorough):
     ops = []
-    ws = WS if thorough else WS[:10]
+    ws = WS if thorough else WS[:9]
     for s in cl_spellings(ws):
         ops.append(["int", hx(s)])
         if value_rule(s) is None or len(s) <= 3:
@@ -611,7 +611,7 @@ def s_oracle(case):
                             {"site": "h3-event", "rule": b, "kind": KINDS[kind]})
                 if declared_content_length([tuple(h) for h in e.headers]) == "conflicting":
                     return ("HeadersReceived carries conflicting content-length declarations (op %d)" % i,
-                            {"site": "h3-event", "kind": KINDS[kind], "rule": "content-length-conflicting"})
+                            {"site": "h3-event", "rule": "content-length-conflicting"})
                 if kind != 3:
                     declared = declared_content_length([tuple(h) for h in e.headers])
                     if declared == "invalid":
@@ -872,7 +872,7 @@ def e_oracle(case):
             b2 = rule_broken(kind, got)
             if declared_content_length(got) == "conflicting":
                 return ("%s event produced for a %s block with conflicting content-length declarations: %r" % (type(r[1]).__name__, KINDS[kind], got),
-                        {"site": "h3-event", "kind": KINDS[kind], "rule": "content-length-conflicting"})
+                        {"site": "h3-event", "rule": "content-length-conflicting"})
             if b2 or broken:
                 return ("%s event produced for a %s block breaking rule '%s': %r" % (type(r[1]).__name__, KINDS[kind], b2 or broken, got),
                         {"site": "h3-event", "kind": KINDS[kind], "rule": b2 or broken})
@@ -1002,7 +1002,7 @@ def run(ctx):
     chars = v_exhaustive_chars(3)
     pseudo = v_exhaustive_pseudo(5, 5) if ctx.thorough else v_exhaustive_pseudo(4, 5)
     cl = v_content_length(ctx.thorough)
-    rnd = v_random(rng, ctx.n(6000, 80000))
+    rnd = v_random(rng, ctx.n(4000, 80000))
     for fam in (chars, pseudo, cl, rnd):
         run_chunked(v, fam, 2500, prepass=False)   # validators: a disagreement there is an acceptance difference
     tally_outcomes(v, chars[::7] + pseudo[::7] + cl[::7] + rnd[::7])
